@@ -27,17 +27,6 @@ SANITISERS = ('sorted', 'min', 'max', 'len', 'any', 'all', 'set', 'frozenset', '
 SET_METHODS = ('union', 'difference', 'intersection', 'symmetric_difference', 'copy')
 DEBUG_FUNCS = ('dump_flows', 'dumptree', 'dump', 'print_dump', 'check_names', 'usages')
 
-# hash-ordered *dicts* (string keys) that are handed on: each consumer was read and iterates only
-# to build another keyed container, to call a commutative operation, or sorts.
-REASONED_DICTS = {
-    ('Flow.parent_names', 'names'): 'per-name table keyed by identifier: consumers look names up by key, take set(...) '
-                                    'of the keys, or sort them (assist); lint marks all values used (commutative)',
-    ('Flow.parent_names', '{n: snames[n] for n in outer_names}'): 'same table (entry region of a function)',
-    ('ClassObject._cls_attrs', '{n: names[n] for n in self.scope.locals}'):
-        'class attribute table keyed by identifier: merged with dict.update, looked up by key, tested by membership, '
-        'and sorted by assist before it is returned',
-}
-
 # callees that order what they are given themselves (conditional on C17-R2 holding)
 CONSUMER_ORDERS = {'MultiName': 'MultiName.__init__ sorts the alternatives by position (C17-R2)'}
 
@@ -269,22 +258,6 @@ def run(repo, res):
                       'results' % (unparse(site)[:60], unparse(src)[:40], esc),
                       sample='%s: %s' % (key, why or 'does not escape'))
     res.count('order_observing_sites', nsites, floor=1)
-    # hash-ordered dicts handed on
-    for fi in funcs:
-        an = FnAnalysis(fi.node, ufields, ufuncs)
-        for st in ast.walk(fi.node):
-            if isinstance(st, ast.Return) and st.value is not None and an.kind(st.value) == 'U' \
-                    and isinstance(st.value, (ast.Name, ast.DictComp)) and not isinstance(st.value, ast.Set):
-                is_dict = isinstance(st.value, ast.DictComp) or any(
-                    isinstance(a, ast.Assign) and unparse(a.targets[0]) == unparse(st.value) and isinstance(a.value, ast.Dict)
-                    for a in ast.walk(fi.node))
-                if not is_dict:
-                    continue
-                k = (fi.qual, unparse(st.value))
-                res.check('C17-R1', 'hash-ordered dict returned by %s: %s' % k, k in REASONED_DICTS, fi.rel, st.lineno,
-                          '%s returns a dict filled in set-iteration order; its consumers have not been triaged' % fi.qual,
-                          sample='%s: %s' % (k, REASONED_DICTS.get(k)))
-
     # ---- R2 alternatives are position ordered ---------------------------------------------------------
     from .. import api_model
     api_model.apply(res, api_model.multiname_order_model(repo), {'order': 'C17-R2'}, 'supp/name.py', 0)
